@@ -184,7 +184,7 @@ func (r *fakeRows) Close() error {
 	return nil
 }
 func (r *fakeRows) Next(dest []driver.Value) error {
-	if r.set.BreakAfter > 0 && r.pos >= r.set.BreakAfter {
+	if r.set.BreakAfter < 0 || (r.set.BreakAfter > 0 && r.pos >= r.set.BreakAfter) {
 		return errRowsBroken
 	}
 	if r.pos >= len(r.set.Rows) {
